@@ -145,3 +145,165 @@ def concrete_mismatch(n, big_endian, tries=400, seed=3):
         if (gq, gr) != (wq, wr):
             return av, bv, gq, gr
     return None
+
+
+# ---------------------------------------------------------------------------------------------------------
+# integer square root (digit-by-digit), decided compositionally
+#
+#   Q1  one bit-vector query per iteration over the real gates, the entering state (remainder x, accumulator c)
+#       free: the next state's gates equal the transcription
+#           hi = 2*st, M = 2^(n-hi):  sm = (c>>hi)+1 mod M;  no = (x>>hi) < sm
+#           x' = x mod 2^hi + (no ? x>>hi : (x>>hi)-sm mod M) << hi
+#           c1 = c>>1;  sm2 = (c1>>hi)+1 mod M;  c' = no ? c1 : c1 mod 2^hi + sm2<<hi
+#   Q2  integers, one query per iteration with s = 2^st: under the invariant
+#           c = 2*P*s, x = a - P^2, P = 2*s*k, P + 2s <= 2^(n/2), P^2 <= a < (P+2s)^2
+#       the transcription yields P' = P + (no ? 0 : s) with  c' = P'*s, x' = a - P'^2, P' = s*k',
+#       P' + s <= 2^(n/2), P'^2 <= a < (P'+s)^2      (P^2 is a free integer Q: every use is linear in P and Q);
+#   Q3  start (P = 0) and end (s = 1: c' = P', so the low half of c' is the root: P'^2 <= a < (P'+1)^2).
+# Q1 for every iteration + Q2 + Q3  =>  the returned bits are floor(sqrt(a)) for every a.
+from cirbo.synthesis.generation.arithmetics import sqrt as SQRT  # noqa: E402
+
+
+def run_sqrt(n0, big_endian):
+    c = Circuit.bare_circuit(n0, prefix="in")
+    a = list(c.inputs)
+    calls = []
+    saved = (SQRT.add_sum_two_numbers, SQRT.add_subtract_with_compare)
+
+    def wrap(kind, orig):
+        def w(circuit, xa, xb, **kw):
+            xa, xb = list(xa), list(xb)
+            out = orig(circuit, xa, xb, **kw)
+            calls.append((kind, xa, xb, out))
+            return out
+        return w
+
+    SQRT.add_sum_two_numbers = wrap("sum", saved[0])
+    SQRT.add_subtract_with_compare = wrap("sub", saved[1])
+    try:
+        res = list(SQRT.add_sqrt(c, a[::-1] if big_endian else list(a), big_endian=big_endian))
+    finally:
+        SQRT.add_sum_two_numbers, SQRT.add_subtract_with_compare = saved
+    if big_endian:
+        res = res[::-1]
+    return c, a, res, calls
+
+
+def sqrt_true_width(p, n0, big_endian=False, timeout_ms=300000):
+    c, a, res, calls = run_sqrt(n0, big_endian)
+    n = n0 + (n0 % 2)
+    half = n // 2
+    probs, stats = [], {"n": n0, "gates": len(c.gates), "iterations": len(calls) // 3}
+    if len(res) != half:
+        return [f"result has {len(res)} bits, documented {half}"], stats
+    if len(calls) != 3 * half or any(k[0] != e for k, e in zip(calls, ["sum", "sub", "sum"] * half)):
+        return ["the recorded calls are not (increment, subtract-with-compare, increment) per iteration: not the scheme this argument is about"], stats
+    W = n + 4
+    one = z3.BitVecVal(1, W)
+
+    def mask(bits):
+        return z3.BitVecVal((1 << bits) - 1, W)
+
+    # padding gate of an odd width: it is the top "bit" of the first compared window
+    xpad = list(a)
+    if n != n0:
+        xpad.append(calls[1][1][-1])
+    for t in range(half):
+        st = half - 1 - t
+        hi, w = 2 * st, n - 2 * st
+        sum1, sub = calls[3 * t], calls[3 * t + 1]
+        if len(sum1[1]) != w or len(sub[1]) != w or sub[1][: 0] != [] or xpad[:hi] + sub[1] != (xpad if t == 0 else xpad[:hi] + sub[1]):
+            probs.append(f"iteration {st}: windows have {len(sum1[1])}/{len(sub[1])} bits, expected {w}")
+            break
+        Xl = xpad[:hi] + sub[1]
+        cuts = {}
+        for l in Xl:
+            if l in a or (t > 0 and l in sub[1]):
+                cuts.setdefault(l, z3.Bool(f"x_{len(cuts)}"))
+        for l in sum1[1]:
+            if t > 0 and l not in cuts and len(c.gates[l].operands) and not _is_zero_gate(c, l):
+                cuts.setdefault(l, z3.Bool(f"c_{len(cuts)}"))
+        tx = _eval(c, cuts, Xl)
+        tc = _eval(c, cuts, sum1[1])
+        X = _bv(tx, W)
+        Chi = _bv(tc, W)
+        M = mask(w)
+        sm = (Chi + one) & M
+        Xhi = z3.LShR(X, hi)
+        no = z3.ULT(Xhi, sm)
+        Xn = (X & mask(hi)) + (z3.If(no, Xhi, (Xhi - sm) & M) << hi)
+        C = Chi << hi
+        C1 = z3.LShR(C, 1)
+        sm2 = (z3.LShR(C1, hi) + one) & M
+        Cn = z3.If(no, C1, (C1 & mask(hi)) + (sm2 << hi))
+        if st > 0:
+            nsum, nsub = calls[3 * (t + 1)], calls[3 * (t + 1) + 1]
+            lo = hi - 2
+            got_c = _bv(_eval(c, cuts, nsum[1]), W)
+            got_x = _bv(_eval(c, cuts, nsub[1]), W)
+            goal = z3.Or(got_c != z3.LShR(Cn, lo), got_x != z3.LShR(Xn, lo), (Cn & mask(lo)) != 0)
+        else:
+            got = _bv(_eval(c, cuts, res), W)
+            goal = got != (Cn & mask(half))
+        r, _ = p.check([goal], timeout_ms=timeout_ms, label=f"Q1 sqrt n={n0} st={st}")
+        if r == "sat":
+            probs.append(f"iteration {st}: the next remainder/accumulator (or the returned bits) are not the digit-recurrence step")
+            break
+        if r != "unsat":
+            probs.append(f"iteration {st}: Q1 inconclusive")
+    # ---- Q2 / Q3 over the integers
+    for st in sorted({half - 1, half // 2, 1 if half > 1 else 0, 0}):
+        s = 1 << st
+        hi, w = 2 * st, n - 2 * st
+        Mi = 1 << w
+        av, P, Q, k = z3.Ints("a P Q k")
+        Cv = 2 * P * s
+        Xv = av - Q
+        inv = [av >= 0, av < (1 << n), P >= 0, Q >= 0, k >= 0, P == 2 * s * k, P + 2 * s <= (1 << half), Q <= av, av < Q + 4 * s * P + 4 * s * s]
+        Chi = Cv / (1 << hi)
+        sm = (Chi + 1) % Mi
+        Xhi = Xv / (1 << hi)
+        no = Xhi < sm
+        Xn = Xv % (1 << hi) + z3.If(no, Xhi, (Xhi - sm) % Mi) * (1 << hi)
+        C1 = Cv / 2
+        sm2 = (C1 / (1 << hi) + 1) % Mi
+        Cn = z3.If(no, C1, C1 % (1 << hi) + sm2 * (1 << hi))
+        Pn = z3.If(no, P, P + s)
+        Qn = z3.If(no, Q, Q + 2 * P * s + s * s)  # (P+s)^2 = P^2 + 2Ps + s^2
+        post = z3.And(Cn == Pn * s, Xn == av - Qn, Pn % s == 0, Pn + s <= (1 << half), Qn <= av, av < Qn + 2 * s * Pn + s * s)
+        rv, _ = p.check(inv + [P > 0] if st < half - 1 else inv, label="Q2 reachability")
+        if rv != "sat":
+            probs.append(f"the integer invariant for s=2^{st} is unsatisfiable: the step lemma would be vacuous")
+        r, _ = p.check(inv + [z3.Not(post)], timeout_ms=120000, label=f"Q2 sqrt step s=2^{st}")
+        if r != "unsat":
+            probs.append(f"integer step lemma for s=2^{st}: " + ("failed" if r == "sat" else "inconclusive"))
+    rt, av = z3.Ints("root a")
+    r, _ = p.check([av >= 0, rt >= 0, rt * rt <= av, av < rt * rt + 2 * rt + 1, z3.Not(z3.And(rt * rt <= av, av < (rt + 1) * (rt + 1)))], label="Q3 sqrt")
+    if r != "unsat":
+        probs.append("closing lemma failed")
+    return probs, stats
+
+
+def _is_zero_gate(c, l):
+    g = c.gates[l]
+    return g.gate_type.name == "XOR" and len(g.operands) == 2 and g.operands[0] == g.operands[1]
+
+
+def sqrt_concrete_mismatch(n0, big_endian, tries=300, seed=5):
+    import math
+    import random
+
+    c, a, res, _ = run_sqrt(n0, big_endian)
+    rnd = random.Random(seed)
+    full = (1 << n0) - 1
+    cands = [0, 1, 2, 3, 4, full, full - 1, 1 << (n0 - 1), (1 << (n0 - 1)) - 1] + [r * r + d for r in (3, (1 << (n0 // 2)) - 1, 12345 % (1 << (n0 // 2))) for d in (-1, 0, 1)]
+    cands += [rnd.randrange(full + 1) for _ in range(tries)]
+    for av in cands:
+        if not 0 <= av <= full:
+            continue
+        assign = {l: bool((av >> i) & 1) for i, l in enumerate(a)}
+        vals = gencommon.concrete_values(c, assign, res)
+        got = sum(int(bool(vals[l])) << i for i, l in enumerate(res))
+        if got != math.isqrt(av):
+            return av, got, math.isqrt(av)
+    return None
